@@ -548,8 +548,29 @@ func (r *Rng) splitTokens(o *Out, pool []realTok) [][]byte {
 			rt := pick(r, pool)
 			t := append([]byte(nil), rt.tok...)
 			if idx := strings.Index(string(t), rt.loc); rt.loc != "" && idx >= 0 {
-				t[idx+r.Intn(len(rt.loc))] ^= 1
-				o.count("split.tok.relocated")
+				switch r.Intn(3) {
+				case 0:
+					t[idx+r.Intn(len(rt.loc))] ^= 1
+					o.count("split.tok.relocated")
+				case 1:
+					// a location that differs from the original only in letter case (one letter)
+					for try := 0; try < 20; try++ {
+						j := idx + r.Intn(len(rt.loc))
+						if c := t[j] | 0x20; c >= 'a' && c <= 'z' {
+							t[j] ^= 0x20
+							break
+						}
+					}
+					o.count("split.tok.relocated.case1")
+				default:
+					// … in the case of every letter
+					for j := idx; j < idx+len(rt.loc); j++ {
+						if c := t[j] | 0x20; c >= 'a' && c <= 'z' {
+							t[j] ^= 0x20
+						}
+					}
+					o.count("split.tok.relocated.caseall")
+				}
 			} else {
 				o.count("split.tok.real")
 			}
